@@ -76,6 +76,13 @@ theorem wasted_inverse (p : Profile) (y : Int) (w : Nat) (hw : w < 32) (hx : fit
 /-! ### residual = sample − truncated prediction, and the decoder adds the same prediction back
     (encode.rs:3176 `encode_residuals` vs decode.rs:1736 `predict`) -/
 
+/-- two's-complement wrap is additive: truncating a summand first changes nothing -/
+theorem wrap32_add_wrap (a t : Int) : wrapS 32 (a + wrapS 32 t) = wrapS 32 (a + t) := by
+  obtain ⟨⟨k1, h1⟩, _, _⟩ := wrapS32_spec t
+  obtain ⟨⟨k2, h2⟩, l2, u2⟩ := wrapS32_spec (a + wrapS 32 t)
+  obtain ⟨⟨k3, h3⟩, l3, u3⟩ := wrapS32_spec (a + t)
+  omega
+
 theorem predict_step_restores (p : Profile) (x sum : Int) (shift : Nat) (r : Int) (hs : shift < 64)
     (hx : fitsS 32 x = true) (hsum : fitsS 64 sum = true) (h : encResidualStep x sum shift = some r) :
     predictStep p 32 r sum shift = .ok x := by
@@ -83,15 +90,12 @@ theorem predict_step_restores (p : Profile) (x sum : Int) (shift : Nat) (r : Int
   split at h
   · simp only [Option.some.injEq] at h
     subst h
-    have e : x - castS 32 (sum / 2 ^ shift) + castS 32 (sum / 2 ^ shift) = x := by omega
-    -- the decoder accumulates in i64 (exact here because the sum fits), shifts, truncates, and
-    -- adds either with overflow checks (exact because the result fits) or wrapping (a no-op here)
-    first
-      | (simp only [predictStep, decDot, resS_eq p 64 _ sum sum rfl hsum, decPredictStep32, if_true, bind, Except.bind,
-           pure, Except.pure, addS, shrX_ok p 64 _ _ shift hs]
-         rw [resS_eq p 32 _ _ x e hx])
-      | (simp only [predictStep, decDot, wrapS64_of_fits _ hsum, decPredictStep32, if_true, bind, Except.bind,
-           pure, Except.pure, shrX_ok p 64 _ _ shift hs, e, wrapS32_of_fits _ hx])
+    -- the encoder subtracts the full prediction; the decoder accumulates in i64 (exact here because the sum fits),
+    -- shifts, truncates the prediction to 32 bits and adds with wrap-around: truncation and wrap cancel, and the
+    -- result is the sample because the sample fits 32 bits
+    have e : x - sum / 2 ^ shift + sum / 2 ^ shift = x := by omega
+    simp only [predictStep, decDot, wrapS64_of_fits _ hsum, decPredictStep32, if_true, bind, Except.bind,
+      pure, Except.pure, shrX_ok p 64 _ _ shift hs, castS, wrap32_add_wrap, e, wrapS32_of_fits _ hx]
   · simp at h
 
 /-- every prefix history met while encoding `xs` after `hist` keeps the prediction sum in i64 -/
